@@ -25,6 +25,35 @@ func vhLuaOK(run *vhRun, src string, args ...rt.Value) []rt.Value {
 	return res
 }
 
+const vhTrashEverything = `
+local pairs, ipairs, rawget, rawset, type, getmetatable = pairs, ipairs, rawget, rawset, type, getmetatable
+local seen = {}
+local function trash(t)
+  if seen[t] then return end
+  seen[t] = true
+  local keys = {}
+  for k in pairs(t) do keys[#keys + 1] = k end
+  for _, k in ipairs(keys) do
+    local v = rawget(t, k)
+    if type(v) == "table" then
+      trash(v)
+      local mt = getmetatable(v)
+      if type(mt) == "table" then trash(mt) end
+    end
+  end
+  for _, k in ipairs(keys) do rawset(t, k, nil) end
+end
+local smt, loaded, g = getmetatable(""), package.loaded, _G
+trash(loaded) trash(smt) trash(g)
+`
+
+const vhSmoke = `
+package.preload.answer = function() return 42 end
+local r = require("answer")
+return r, #package.searchers, ("ab"):upper(), #table.pack(1, 2), math.type(1), type(coroutine.create),
+  select("#", string.byte("abc", 1, -1)), tostring(nil)
+`
+
 // creating and loading a runtime writes nothing shared
 func VerifH_C20_creation_and_loading_share_nothing() {
 	before := verifSharedState()
@@ -39,6 +68,18 @@ func VerifH_C20_creation_and_loading_share_nothing() {
 			go func() { defer wg.Done(); vhNewRun() }()
 		}
 		wg.Wait()
+		// and a behavioural one: a runtime that destroys everything it can
+		// reach (every table reachable from its globals, loaded packages and
+		// the string metatable) must leave a runtime created afterwards intact
+		t := vhNewRun()
+		vhLuaOK(t, vhTrashEverything)
+		b := vhNewRun()
+		res := vhLuaOK(b, vhSmoke)
+		if !(len(res) == 8 && vhSame(res[0], vhInt(42)) && vhSame(res[1], vhInt(2)) && vhSame(res[2], vhStr("AB")) &&
+			vhSame(res[3], vhInt(2)) && vhSame(res[4], vhStr("integer")) && vhSame(res[5], vhStr("function")) &&
+			vhSame(res[6], vhInt(3)) && vhSame(res[7], vhStr("nil"))) {
+			shared = true
+		}
 	}
 	_ = a
 	verifAssert(!shared, "loading-the-standard-library-writes-no-package-level-state")
